@@ -34,17 +34,27 @@ fn write_file
 )
 -> Result<(), ReadWriteError>
 {
-    match system.create_file(file_path)
+    /*  Write under a temporary name first, then move the complete file into place, so that being
+        interrupted never leaves a truncated or half-written file under the real name. */
+    let temporary_file_path = format!("{}.partial", file_path);
+
+    match system.create_file(&temporary_file_path)
     {
         Ok(mut file) =>
         {
             match file.write_all(&content)
             {
-                Ok(_) => return Ok(()),
+                Ok(_) => {},
                 Err(error) => return Err(ReadWriteError::IOError(format!("{}", error))),
             }
         }
         Err(error) => return Err(ReadWriteError::SystemError(error)),
+    }
+
+    match system.rename(&temporary_file_path, file_path)
+    {
+        Ok(_) => Ok(()),
+        Err(error) => Err(ReadWriteError::SystemError(error)),
     }
 }
 
